@@ -38,9 +38,10 @@ N == Len(TraceLog)
 VARIABLES l, tid,
           wid,        \* the world (inputs) of the current trace: the monitor's memory is shared by all traces of a world
           aux,        \* key -> [resS, sc, seed, ep, src, tid] of the memoised result
+          tfirst,     \* key -> [tag, ep, seed]: first result of THIS trace (to attribute a change to a store perturbation)
           load0,      \* [db, ev]: digest of the first load of every gene / sample in this process
           tainted     \* genes whose catalogue or evidence changed in this process
-tvars == <<vars, l, tid, wid, aux, load0, tainted>>
+tvars == <<vars, l, tid, wid, aux, tfirst, load0, tainted>>
 
 Abs(x) == IF x < 0 THEN 0 - x ELSE x
 Tol == 10            \* 1e-5 in units of 1e-6: SOLVER precision band of a score-only difference
@@ -62,6 +63,9 @@ AuxOf(e, key) ==
          ELSE LET p == e.per[CHOOSE i \in ps : TRUE]
               IN [resS |-> p.resS, sc |-> p.sc, seed |-> e.seed, ep |-> e.ep, src |-> e.op.k, i |-> e.i, tid |-> e.tid]
 
+TagOf(e, key) == IF key = KeyOf(e.op) THEN e.res
+                 ELSE e.per[CHOOSE i \in DOMAIN e.per : PartKey(e, e.per[i]) = key].res
+
 (* which clause a result that differs from the memoised one violates *)
 Classify(e, key) ==
     LET a0 == aux[key]
@@ -76,7 +80,8 @@ Classify(e, key) ==
              ELSE "DeterministicAcrossHashSeeds")
        ELSE IF key.k = "Genotype" /\ (e.op.k = "GenotypeMulti" \/ a0.src = "GenotypeMulti") /\ e.op.k # a0.src
             THEN "MultiIsUnionOfSingles"
-       ELSE IF a0.tid = a1.tid /\ a0.ep # a1.ep THEN "StoreIsWriteOnly"
+       ELSE IF key \in DOMAIN tfirst /\ tfirst[key].seed = a1.seed /\ tfirst[key].ep # a1.ep /\ tfirst[key].tag # TagOf(e, key)
+            THEN "StoreIsWriteOnly"      \* same process, same call, only the debug store was perturbed in between
        ELSE "Deterministic"
 
 Reads(e) == SeqRange(e.op.g)
@@ -120,7 +125,7 @@ TraceInit ==
     /\ l = 1 /\ tid = -1 /\ wid = -1
     /\ db = Empty /\ ev = Empty /\ memo = <<>> /\ store = 0 /\ hashSeed = 0 /\ hist = <<>>
     /\ last = [op |-> NoOp, res |-> NoRes]
-    /\ aux = <<>> /\ load0 = [db |-> Empty, ev |-> Empty] /\ tainted = {}
+    /\ aux = <<>> /\ tfirst = <<>> /\ load0 = [db |-> Empty, ev |-> Empty] /\ tainted = {}
 
 (* first event of another trace: a new process; the monitor's memory is kept as long as the world is the same *)
 (* (results are functions of the arguments, whatever ran before and in whichever process)                      *)
@@ -129,6 +134,7 @@ NewTrace ==
     /\ tid' = Ev.tid /\ wid' = Ev.w
     /\ memo' = IF Ev.w = wid THEN memo ELSE <<>>
     /\ aux' = IF Ev.w = wid THEN aux ELSE <<>>
+    /\ tfirst' = <<>>
     /\ db' = Empty /\ ev' = Empty /\ store' = 0 /\ hashSeed' = Ev.seed
     /\ load0' = [db |-> Empty, ev |-> Empty] /\ tainted' = {}
     /\ UNCHANGED <<l, hist, last>>
@@ -140,7 +146,7 @@ Restart ==
     /\ db' = Empty /\ ev' = Empty /\ load0' = [db |-> Empty, ev |-> Empty] /\ tainted' = {}
     /\ last' = [op |-> Ev.op, res |-> NoRes]
     /\ l' = l + 1
-    /\ UNCHANGED <<tid, wid, memo, aux, store, hist>>
+    /\ UNCHANGED <<tid, wid, memo, aux, tfirst, store, hist>>
 
 AddFirst(f, g) == [x \in DOMAIN f \cup DOMAIN g |-> IF x \in DOMAIN f THEN f[x] ELSE g[x]]
 Step ==
@@ -154,6 +160,9 @@ Step ==
           /\ memo' = RememberAll(memo, ent)
           /\ aux' = [key \in DOMAIN aux \cup {kv[1] : kv \in new} |->
                         IF key \in DOMAIN aux THEN aux[key] ELSE AuxOf(e, key)]
+          /\ tfirst' = [key \in DOMAIN tfirst \cup {kv[1] : kv \in ent} |->
+                           IF key \in DOMAIN tfirst THEN tfirst[key]
+                           ELSE [tag |-> TagOf(e, key), ep |-> e.ep, seed |-> e.seed]]
           /\ tainted' = tainted \cup Changed(db, e.db) \cup Changed(ev, e.ev)
                           \cup {e.inner[i].g : i \in InnerBad(e, "db") \cup InnerBad(e, "ev")}
           /\ db' = e.db /\ ev' = e.ev
@@ -162,7 +171,7 @@ Step ==
     /\ l' = l + 1
     /\ UNCHANGED <<tid, wid, hist>>
 
-Finish == l = N + 1 /\ PrintT(<<"V", "DONE", N>>) /\ l' = N + 2 /\ UNCHANGED <<vars, tid, wid, aux, load0, tainted>>
+Finish == l = N + 1 /\ PrintT(<<"V", "DONE", N>>) /\ l' = N + 2 /\ UNCHANGED <<vars, tid, wid, aux, tfirst, load0, tainted>>
 
 TraceNext == NewTrace \/ Restart \/ Step \/ Finish
 TraceSpec == TraceInit /\ [][TraceNext]_tvars
